@@ -203,6 +203,20 @@ func init() {
 	})
 }
 
+func init() {
+	h := func(cfg string, q, t int) Batch { b := s4b("rpc", cfg, q, t); b.HangIsViolation = true; return b }
+	reg(&PropSpec{
+		ID: "C04",
+		Batches: []Batch{
+			h("faults=hostile", 30000, 2000000),
+			h("faults=hostile,res=fam.cks+fam.strs+fam.byname", 15000, 1000000),
+			h("faults=hostile,mounts=bare+mux+prefix,strings=benign", 8000, 500000),
+		},
+		Rule:   "valid calls as in C02 (all key types, batch ids, infallible mocks), then exactly one damage per exchange drawn from {truncate, insert a ROR2/JSON/URL metacharacter, replace a byte, delete a byte, duplicate a span} at a drawn position of the request path keys, the query string, the request body, the response body or the X-RestLi-Id header (Content-Length adjusted: HTTP framing stays valid, the Rest.li payload does not). Non-trivial: a damage actually landed; distinct by (resource, method, mounting) of the first call.",
+		Assume: append([]string{"decoder entry points no HTTP exchange reaches (untyped-value reader, raw-record decoder) and bounded exhaustive enumeration over the delimiter alphabet are pure input enumeration and not claimed", "a task that does not reach its next yield point within 20 s of wall time is reported as a hang (the 'never loops forever' clause)"}, s4Assume...),
+	})
+}
+
 func joinNonEmpty(s ...string) string {
 	var o []string
 	for _, x := range s {
